@@ -397,10 +397,12 @@ pub fn insert_vertices_on_edge<T: CoordsFloat>(
         cmap.write_vertex(trans, new_d, new_v)?;
         prev_d = new_d;
     }
-    try_or_coerce!(
-        cmap.link::<1>(trans, prev_d, b1d1_old),
-        VertexInsertionError
-    );
+    if b1d1_old != NULL_DART_ID {
+        try_or_coerce!(
+            cmap.link::<1>(trans, prev_d, b1d1_old),
+            VertexInsertionError
+        );
+    }
 
     // if b2(base_dart1) is defined, insert vertices / darts on its side too
     if base_dart2 != NULL_DART_ID {
